@@ -278,13 +278,13 @@ def run(ctx):
                 'The library\'s rewrite rules are never consulted.  Non-trivial = f contains an '
                 'operator the rewrite must eliminate (and, -->, F, G, R, A) or a negated constant / '
                 'double negation.')
-    scope = [[1, 2], 4, -3] if not ctx.thorough else [[1, 2, 3], 5, 61]
+    scope = [[1, 2], 4, -3] if not ctx.thorough else [[1, 2, 3], 5, 331]
     k = 2
     ctx.scopes = ['all formulas with <= %d operators of CTL*, CTL, LTL' % k,
                   'all path formulas with exactly 3 operators, all temporal, over {p,q}, and all unary chains of length '
                   '3..%d over not/X/F/G applied to p, p U q, p R q, p and q (%s)' % (
                       5 if ctx.thorough else 4, 'LTL and CTL* objects' if ctx.thorough else 'LTL objects'),
-                  'equivalence on S(1)+%s, lassos <= %d' % ('S(2) + every 61st of S(3)' if ctx.thorough else 'every 3rd structure of S(2)', scope[1])]
+                  'equivalence on S(1)+%s, lassos <= %d' % ('S(2) + every 331st of S(3)' if ctx.thorough else 'every 3rd structure of S(2)', scope[1])]
     ctx.exhaustive = True
     ctx.assumptions = ['reference semantics vp/ref.py is the trusted base; equivalence is decided on '
                        'the small scope only (a difference needing a larger structure or longer lasso is out of reach)',
